@@ -67,7 +67,7 @@ func runC17(c *Ctx) {
 	headerPresent := factEqString(isCLHeader, "", false)
 	probes := callsIn(hb, "(*rt.peekingReader).HasContent")
 	wraps := callsIn(hb, "rt.newPeekingReader")
-	c.obF("R17.1", hb, "probes-through-wrapper", len(probes) == 1 && len(wraps) == 1, "HasBody wraps the body once and probes the wrapper", fmt.Sprintf("%d HasContent, %d newPeekingReader", len(probes), len(wraps)))
+	c.obRF("R17.1", hb, "probes-through-wrapper", len(probes) == 1 && len(wraps) == 1, "HasBody wraps the body once and probes the wrapper", fmt.Sprintf("%d HasContent, %d newPeekingReader", len(probes), len(wraps)))
 	for _, ret := range returnsOf(hb) {
 		v := ret.Results[0]
 		if b, ok := constBool(v); ok {
@@ -151,7 +151,7 @@ func runC17(c *Ctx) {
 		}
 	}
 	_ = recvP
-	c.obF("R17.1", rd, "read-delegates", nDeleg == 1, "Read has exactly one delegate call", fmt.Sprintf("%d interface calls", nDeleg))
+	c.obRF("R17.1", rd, "read-delegates", nDeleg == 1, "Read has exactly one delegate call", fmt.Sprintf("%d interface calls", nDeleg))
 	// no access to orig in Read / HasContent
 	hc := p.Fn("(*rt.peekingReader).HasContent")
 	for _, fn := range []*ssa.Function{rd, hc} {
@@ -226,7 +226,7 @@ func runC17(c *Ctx) {
 			}
 		}
 	}
-	c.obF("R17.1", hc, "asks-the-buffered-stream", nHC >= 1, "HasContent consults the buffered stream", "")
+	c.obRF("R17.1", hc, "asks-the-buffered-stream", nHC >= 1, "HasContent consults the buffered stream", "")
 	// a wrapper is never shared between two probes: newPeekingReader returns nil or a wrapper it has just allocated
 	npr := p.Fn("rt.newPeekingReader")
 	for _, r := range realReturns(npr) {
@@ -256,7 +256,7 @@ func runC17(c *Ctx) {
 			closes = append(closes, ci)
 		}
 	}
-	c.obF("R17.2", cl, "closes-original", len(closes) == 1, "Close closes the original stream", fmt.Sprintf("%d calls of orig.Close", len(closes)))
+	c.obRF("R17.2", cl, "closes-original", len(closes) == 1, "Close closes the original stream", fmt.Sprintf("%d calls of orig.Close", len(closes)))
 	var marks []ssa.Instruction
 	for _, st := range fieldStores(cl, peekT, "underlying") {
 		if isNilConst(st.Val) {
@@ -309,7 +309,8 @@ func runC17(c *Ctx) {
 		if allOK {
 			nilGuarded++
 		}
-		c.obF("R17.3", fn, "nil-receiver-safe", allOK && n > 0, "HasBody installs a nil *peekingReader for a nil body: every method dereferences its receiver only under p != nil", "receiver dereferenced without a nil test")
+		c.obRF("R17.3", fn, "uses-receiver", n > 0, "the method accesses its receiver's state", "no field access through the receiver found")
+		c.obF("R17.3", fn, "nil-receiver-safe", allOK, "HasBody installs a nil *peekingReader for a nil body: every method dereferences its receiver only under p != nil", "receiver dereferenced without a nil test")
 	}
 	// the premise: newPeekingReader(nil) returns nil (documented by its own nil test)
 	okNil := false
